@@ -5,6 +5,7 @@
 //! counter bookkeeping, and the structural contract of an RVB sweep (operator count, positions of
 //! operators and the constant operators' positions are unchanged; only bonds of diagonal two-site
 //! operators and spin values move).
+use crate::coqfmt as cq;
 use crate::ising::*;
 use crate::model::*;
 use crate::steps::legal_ising;
@@ -28,9 +29,27 @@ pub fn run(args: &Args) -> serde_json::Value {
     let mut n_frustrated = 0usize;
     let mut hist_n = std::collections::BTreeMap::new();
     let mut distinct = std::collections::HashSet::new();
+    // the first histories keep the RNG log: every RVB sweep / RVB-enabled timestep of theirs becomes a
+    // correspondence case replayed by Model/Rvb.v on the raw words
+    let n_replay = if args.thorough { 2500 } else { 260 };
+    let mut coq: Vec<String> = vec![];
+    let mut n_replay_sweeps = 0usize;
+    let mut n_replay_steps = 0usize;
+    let mut n_replay_words = 0usize;
+    let mut n_replay_accepted = 0usize;
     let mut fail = |what: String, ctx: serde_json::Value, v: &mut Vec<serde_json::Value>| {
         if v.len() < 60 {
-            v.push(json!({"prop": "C03", "what": what, "context": ctx}));
+            // the same concrete failure contradicts C03 and the structural property it belongs to
+            let prop = if what.starts_with("world line") || what.starts_with("verify()") {
+                "C03,C06"
+            } else if what.starts_with("illegal stored") {
+                "C03,C07"
+            } else if what.starts_with("get_n()") || what.starts_with("get_bond_count") {
+                "C03,C11"
+            } else {
+                "C03"
+            };
+            v.push(json!({"prop": prop, "what": what, "context": ctx}));
         }
     };
     for hi in 0..n_hist {
@@ -53,7 +72,11 @@ pub fn run(args: &Args) -> serde_json::Value {
         let ctx = json!({"history": hi, "edges": spec.edges, "gamma": spec.gamma, "h": spec.h, "cutoff0": spec.cutoff,
             "heatbath": spec.hb, "set_run_rvb": auto, "initial_state": spec.state});
         let mut g = spec.build(TapeRng::new(rng.next()));
-        g.rng_logging_off();
+        let replay = hi < n_replay;
+        let mut seen = 0usize;
+        if !replay {
+            g.rng_logging_off();
+        }
         if auto {
             g.set_run_rvb(true);
         }
@@ -63,6 +86,7 @@ pub fn run(args: &Args) -> serde_json::Value {
             let kind = rng.below(5);
             let k = 1 + rng.below(4) as usize;
             let (sl0, st0, c0) = snapshot_ising(&g);
+            let mut succ = 0usize;
             let r = catch_unwind(AssertUnwindSafe(|| match kind {
                 0 | 1 => {
                     g.timestep(beta);
@@ -71,7 +95,7 @@ pub fn run(args: &Args) -> serde_json::Value {
                     g.single_diagonal_step(beta);
                 }
                 _ => {
-                    g.single_rvb_sweep(Some(k));
+                    succ = g.single_rvb_sweep(Some(k)).0;
                 }
             }));
             n_calls += 1;
@@ -83,6 +107,21 @@ pub fn run(args: &Args) -> serde_json::Value {
                 break;
             }
             let (sl1, st1, c1) = snapshot_ising(&g);
+            if replay {
+                let words = take_words(&g, &mut seen);
+                if kind >= 3 {
+                    n_replay_sweeps += 1;
+                    n_replay_words += words.len();
+                    n_replay_accepted += succ;
+                    coq.push(format!("Rvb.Sweep {} {}%nat {} {} {} {} {} {}%nat", spec.coq(), k, cq::bools(&st0), slots_coq(&sl0),
+                        cq::words(&words), cq::bools(&st1), slots_coq(&sl1), succ));
+                } else if kind <= 1 && auto {
+                    n_replay_steps += 1;
+                    n_replay_words += words.len();
+                    coq.push(format!("Rvb.Step {} {} {} {}%nat {} {} {} {} {} {}%nat", spec.coq(), cq::b(spec.hb), cq::q(beta), c0,
+                        cq::bools(&st0), slots_coq(&sl0), cq::words(&words), cq::bools(&st1), slots_coq(&sl1), c1));
+                }
+            }
             let n1 = sl1.iter().flatten().count();
             *hist_n.entry(n1.min(40) / 5 * 5).or_insert(0usize) += 1;
             distinct.insert(format!("{:?}{:?}{}", sl0, st0, kind));
@@ -143,7 +182,9 @@ pub fn run(args: &Args) -> serde_json::Value {
             }
         }
     }
-    json!({"files": [], "evaluations": n_calls, "distinct_nontrivial": distinct.len(), "histories": n_hist, "rvb_sweeps": n_rvb,
+    let files = crate::write_shards(&args.out, "Rvb", "Rvb", &coq, if args.thorough { 400 } else { 60 });
+    json!({"files": files, "replayed_rvb_sweeps": n_replay_sweeps, "replayed_rvb_timesteps": n_replay_steps,
+        "replayed_raw_words": n_replay_words, "replayed_sweep_updates_accepted": n_replay_accepted, "evaluations": n_calls, "distinct_nontrivial": distinct.len(), "histories": n_hist, "rvb_sweeps": n_rvb,
         "rvb_sweeps_that_changed_the_configuration": n_rvb_changed, "operators_rotated_to_another_bond": n_rvb_rotated,
         "histories_with_field": n_field, "histories_with_frustrated_triangle": n_frustrated, "n_after_histogram(bucket of 5)": hist_n,
         "oracle_failures": oracle_failures, "samples": samples,
